@@ -41,13 +41,14 @@ Fixpoint format_c (fuel : nat) (cval : pystr) (s : pystr) : res pystr :=
               | x :: rest' =>
                   if N.eqb x 123 then Raise EValueError     (* unexpected '{' in field name *)
                   else
-                    if is_nil name then Raise EIndexError                   (* '{}' *)
-                    else if forallb is_digit name then Raise EIndexError      (* '{0}' *)
-                    else if forallb is_ident_char name
-                            && (match name with n0 :: _ => is_ident_start n0 | [] => false end)
-                    then if str_eqb name [99%N] then do t <- format_c f cval rest'; Ok (cval ++ t)
-                         else Raise EKeyError
-                    else Raise (EStuck 41)                  (* format mini-language not modelled *)
+                    (* the field name up to the first of . [ ! : selects the argument *)
+                    let '(first, more) := span (fun x => negb (N.eqb x 46 || N.eqb x 91 || N.eqb x 33 || N.eqb x 58)) name in
+                    if existsb (fun x => N.eqb x 91 || N.eqb x 33 || N.eqb x 58) name then Raise (EStuck 41)   (* [ ! : not modelled *)
+                    else if is_nil first then Raise EIndexError               (* '{}' : automatic numbering, no positional argument *)
+                    else if forallb is_digit first then Raise EIndexError      (* '{0}' *)
+                    else if str_eqb first [99%N] then
+                      (if is_nil more then do t <- format_c f cval rest'; Ok (cval ++ t) else Raise (EStuck 41))
+                    else Raise EKeyError
               end
         | [] => Raise EValueError                           (* Single '{' encountered *)
         end
